@@ -86,7 +86,7 @@ def install_contracts(ex):
 class Zone:
     pass
 
-def build_zone(ex, st, N, T, pfx="z", hints=True, second_half=True, spacing=None):
+def build_zone(ex, st, N, T, pfx="z", hints=True, second_half=True, spacing=None, off_bound=None):
     """allocate a TimeZoneInfo object with N transitions and T types, all contents symbolic under WF"""
     mod = module()
     z = Zone(); z.N = N; z.T = T
@@ -117,7 +117,7 @@ def build_zone(ex, st, N, T, pfx="z", hints=True, second_half=True, spacing=None
     W(176, 8, z.hint1); W(184, 8, z.hint2)
     z.off = []; z.dst = []; z.abi = []
     for t in range(T):
-        OB = int(os.environ.get("VERIF_OFF_BOUND", "86400"))   # Load keeps offsets strictly inside +-24h; fixed-offset zones reach exactly +-24h
+        OB = off_bound or int(os.environ.get("VERIF_OFF_BOUND", "86400"))   # Load keeps offsets strictly inside +-24h; fixed-offset zones reach exactly +-24h
         o = ex.input("%s_off%d" % (pfx, t), 32, -OB, OB)
         dflag = ex.input("%s_dst%d" % (pfx, t), 8, 0, 1); ai = ex.input("%s_abbr%d" % (pfx, t), 8, 0, 255)
         # abbr_index is an unsigned byte in memory: store it in the signed representation of i8
